@@ -171,6 +171,7 @@ def run(ctx: Ctx):
     _padding(ctx, model, mod, pk, avp)
     _time(ctx, model, mod)
     _address(ctx, model, mod, E)
+    _grouped(ctx, model, mod)
     _dictionary(ctx, model, mod, avp)
     # no codec function of the AVP module keeps state between calls (the dictionaries live in
     # .dictionary and are the documented registry)
@@ -499,6 +500,44 @@ def _time(ctx: Ctx, model, mod):
             s = ast.unparse(sd[0].ast.value) if sd else ""
             if not (s.startswith("int(") and ".timestamp()" in s):
                 ctx.fail(cons + "#seconds", func.loc(), f"the encoded value is not int(value.timestamp()): `{s}`")
+            # the reader picks the era from the cut-off (value < 2^31 => era 1); the writer must
+            # reject values whose 32-bit form falls on the other side (before 1968 / after 2104)
+            cons_r = "AvpTime.value:encode-range"
+            ctx.inst(cons_r)
+            cmps = [x for x in ast.walk(func.node) if isinstance(x, ast.Compare)
+                    and "overflow_detection_cutoff" in ast.unparse(x)]
+            if not cmps:
+                ctx.fail(cons_r, func.loc(), "the setter never compares the 32-bit value it packs with "
+                         "overflow_detection_cutoff: a datetime before 1968-01-20 03:14:08 UTC or after "
+                         "2104-02-26 09:42:23 UTC is packed modulo 2^32 and read back as a date of the "
+                         "other era (1950-01-01 -> 2086-02-06, 2105-01-01 -> 1968-11-24) instead of being "
+                         "rejected")
+
+
+def _grouped(ctx: Ctx, model, mod):
+    """The encoder of AvpGrouped reads the member list it hands out."""
+    ci = mod.classes.get("AvpGrouped")
+    cons = "AvpGrouped:payload-cached-at-assignment"
+    ctx.inst(cons, rule="C01-R3")
+    if ci is None:
+        return
+    getter = ci.methods.get("value")
+    hands_out_list = getter is not None and any(
+        isinstance(r, ast.Return) and r.value is not None and "_avps" in ast.unparse(r.value)
+        for r in ast.walk(getter.node))
+    # does anything on the encode path (as_packed / length / payload property) consult _avps?
+    enc = [ci.methods.get(n) for n in ("as_packed", "as_bytes", "length", "payload")]
+    rereads = any(m is not None and "_avps" in ast.unparse(m.node) or
+                  (m is not None and any(isinstance(c, ast.Call) and "_avps" in ast.unparse(
+                      (ci.methods.get(A.call_name(c).split(".")[-1]) or m).node)
+                      for c in ast.walk(m.node) if isinstance(c, ast.Call) and A.call_name(c).startswith("self.")))
+                  for m in enc)
+    if hands_out_list and not rereads:
+        ctx.fail(cons, ci.loc(), "AvpGrouped.value hands out the cached member list (the documented "
+                 "`grp.value.append(avp)` usage), but the payload that as_packed()/length encode is "
+                 "only rebuilt by the value setter: after an in-place change of the list (or of a "
+                 "member) the AVP is encoded with the stale payload - e.g. an empty group of length 8 "
+                 "although .value holds two members", rule="C01-R3")
 
 
 def _address(ctx: Ctx, model, mod, E):
